@@ -12,7 +12,11 @@ From BB Require Import BN Brute SpaceFacts TrapFacts PercolateFacts AttractorFac
   Strict PetriNet Control Meta FilterFacts PetriNetFacts TrappistFacts DiagramStruct DiagramSem1 DiagramCache
   DiagramDepth DiagramComplete Termination ControlFacts MetaFacts Candidates StrictFacts MinExpandFacts CandidatesFacts SymbolicTest SymbolicTestFacts Signed ReductionFacts ControlFacts2 Main Blocks BlocksFacts ObsFacts OwnerFacts CandidatesTerm
   PartialOwner BlockMath BlockComplete ASeeds ASeedsFacts LogChecks SkipRule SkipRuleFacts Names NamesFacts Perm PermFacts SCC SCCFacts SCCStruct ControlFacts3 SCCTerm FilterSym Main2 StrategyFacts ControlFacts4 SkipRuleFacts2 SCCComplete SCCAttr BlockComplete2 ControlFacts5 Iso SkipSem ControlFacts6.
-From BB Require Import PyLib PySrcBase PySrcKey PySrcKeyFacts PyLibCore PySrcCore PySrcCoreFacts.
+From BB Require Import PyLib PySrcBase PySrcKey PySrcKeyFacts PyLibCore PySrcCore PySrcCoreFacts PyLibCore2 PySrcCore2 PySrcCore2Facts.
+
+(* translator tie: SuccessionDiagram.depth as generated from the source = Diagram.depth *)
+Theorem C20_source_depth : forall (fuel : nat) (N : net) (cfg : config) (pnc : nat -> bool) (w : pyst), py_depth fuel N cfg pnc w = CRet w (depth (p_sd w)).
+Proof. exact py_depth_spec. Qed.
 
 (* ... _ensure_node / _ensure_edge / _update_node_depth compute Diagram.ensure_node *)
 Theorem C20_source_ensure_node : forall (fuel : nat) (N : net) (cfg : config) (pnc : nat -> bool) (w : pyst) (p : nat) (m : list (option bool)), CoreInv N w -> p < size (p_sd w) -> length m = nvars N -> trap_space N m -> strict_subspace (percolate_b N m) (n_space (get (p_sd w) p)) -> S (size (p_sd w)) < fuel -> exists w' : pyst, py_ensure_node fuel N cfg pnc w (Some p) m = CRet w' (snd (ensure_node N (p_sd w) (Some p) m)) /\ p_sd w' = fst (ensure_node N (p_sd w) (Some p) m) /\ CoreInv N w'.
@@ -82,6 +86,7 @@ Proof. exact is_isomorphic_b_spec. Qed.
 Theorem C20_is_isomorphic_symmetric : forall a b : sd, is_isomorphic_b a b = is_isomorphic_b b a.
 Proof. exact is_isomorphic_b_sym. Qed.
 
+Print Assumptions C20_source_depth.
 Print Assumptions C20_source_ensure_node.
 Print Assumptions C20_source_len.
 Print Assumptions C20_source_root.
